@@ -845,6 +845,10 @@ func (cx *zvC12Ctx) check(c zvC12Case, verbose, silent bool) bool {
 		}
 	}
 	got := zvC12Run(cfg, c.Side, c.Variant, chains, c.Subset)
+	if !silent {
+		r.Transitions(len(chains) - 1)
+		r.Traces(1)
+	}
 	if verbose {
 		fmt.Printf("case %+v differs_in=%s\n", c, differs)
 		fmt.Printf("  status=%s problem=%q crash=%.300s blocked=%.300s\n", got.Status, got.Problem, got.Crash, got.Blocked)
@@ -867,6 +871,8 @@ func (cx *zvC12Ctx) check(c zvC12Case, verbose, silent bool) bool {
 		if !silent {
 			r.Count("phase_compared:"+zvC12Phases[ph], 1)
 			r.Outcome(got.Obs[ph].String())
+			r.Visit(got.Obs[ph].String()) // states = distinct observed table states; transitions = history steps run (a replacement or a phase of session events)
+			r.Transitions(1)
 		}
 		if tab, kind, text, d := zvC12Diff(got.Obs[ph], want.Obs[ph]); d {
 			violation(sig(kind, tab, zvC12Phases[ph]), "%s side, %s, %s, old policy [%s] -> new [%s]%s, route set %03b, %s: %s",
@@ -983,6 +989,9 @@ func TestVerifC12(t *testing.T) {
 		if skip {
 			r.Count("skipped_consequence", 1)
 			return true
+		}
+		if c.Newer != "" || c.Variant != zvC12Live {
+			r.Sample(c) // (the evidence keeps the first few)
 		}
 		return cx.check(c, false, false)
 	}
